@@ -86,9 +86,10 @@ def _install_cancel_recorder():
         s = vsched.cur_sched()
         if s is None or s.aborting:
             return orig(self)
-        s.record("lcancel_call", fid=id(self), cls=type(self).__name__)
+        pre = self._state
+        s.record("lcancel_call", fid=id(self), cls=type(self).__name__, pre=pre)
         r = orig(self)
-        s.record("lcancel_ret", fid=id(self), result=r)
+        s.record("lcancel_ret", fid=id(self), result=r, pre=pre)
         return r
 
     cancel._verif_wrapped = True
@@ -105,9 +106,10 @@ def _install_cancel_recorder():
         s = vsched.cur_sched()
         if s is None or s.aborting:
             return sorig(self)
-        s.record("lcancel_call", fid=id(self), cls="Future")
+        pre = self._state
+        s.record("lcancel_call", fid=id(self), cls="Future", pre=pre)
         r = sorig(self)
-        s.record("lcancel_ret", fid=id(self), result=r)
+        s.record("lcancel_ret", fid=id(self), result=r, pre=pre)
         return r
 
     base.Future.cancel = scancel
@@ -154,7 +156,12 @@ class EB(BaseException):
     ordinary failed future."""
 
 
-EXC = {"E0": E0, "E1": E1, "E2": E2, "E3": E3, "Fault": Fault, "EF": EF, "EB": EB}
+class CE(cf.CancelledError):
+    """A callable that FAILS with a CancelledError instance (it called result() on some other, cancelled future): its own
+    future is failed, not cancelled."""
+
+
+EXC = {"E0": E0, "E1": E1, "E2": E2, "E3": E3, "Fault": Fault, "EF": EF, "EB": EB, "CE": CE}
 
 
 def verif_orig_raise_site(e):
@@ -191,9 +198,10 @@ class RecFuture(Future):
 
     def cancel(self):
         w = self.w
-        w.rec("fcancel_call", fut=self.name, done=self.done())
+        pre = self._state
+        w.rec("fcancel_call", fut=self.name, done=self.done(), pre=pre)
         r = Future.cancel(self)
-        w.rec("fcancel_ret", fut=self.name, result=r)
+        w.rec("fcancel_ret", fut=self.name, result=r, pre=pre)
         return r
 
 
